@@ -11,6 +11,8 @@ Decided, on every CFG path of every ThreadPool function instantiation in the par
                     enqueueToCentralQueue / scheduleBulkEnqueue is guarded by the enqueue result.
   C01.bulk-index    scheduleBulkImpl: the index advances by exactly what was handed on (1 after an
                     inline run; the count given to the bulk enqueue / placed loop otherwise).
+  C01.bulk-once     a loop that runs gen(i) for every i in [0, count) is the last use of the generator
+                    on its path (falling through to the general chunking loop runs every task twice).
   C01.batch-rest    scheduleBulkToRingsBatched: the tasks try_push_batch did not take (from the
                     returned count up to the staged count) are handed to the central queue.
   C01.dtor-drain    ~ThreadPool: each of the three tiers (central queue, per-thread rings, steal
@@ -28,6 +30,10 @@ EXPLANATION = __doc__
 NOT_DECIDED = ["delivery inside moodycamel::ConcurrentQueue (trusted)", "delivery inside MpmcRingBuffer (see C34)", "interleavings of producers with workers and the destructor"]
 ENTRY = ("schedule", "schedulePlaced", "forceEnqueue")
 WHY = "a functor handed to the pool must be invoked exactly once, no later than the return of the destructor"
+
+
+def short(e):
+    return "%s at %s" % (e.get("name") or e.get("k"), (e.get("loc") or "?").rsplit("/", 1)[-1])
 
 
 def in_scope(fn):
@@ -145,6 +151,50 @@ def run(R):
                 R.ob("C01.bulk-index", fn, ev, path is None, "the count handed to scheduleBulkEnqueue (%s) is added to the index on every path" % expr_str(cnt) if path is None else "index not advanced by the enqueued count",
                      sitekey="bulk:enqueue", why=WHY)
     R.need("C01.bulk-index", n, 3, "index updates in scheduleBulkImpl")
+
+    # ---- a loop that covers the whole generator range is final ------------------------------------------
+    # `for (i = 0; i < count; ++i) gen(i)...` hands on every task of the batch; if control can go on
+    # from there to another site that invokes the generator, every task is produced (and run) twice.
+    from lib.rules import natural_loops, loop_exit_edges, single_def_value
+    n = 0
+    for fn in F.fns:
+        if not (fn.qname.startswith("dispenso::ThreadPool::scheduleBulk") or fn.qname.startswith("dispenso::TaskSetBase::scheduleBulk")):
+            continue
+        gens = [prm["vid"] for prm in fn.params if prm.get("name") == "gen"]
+        cnts = [prm["vid"] for prm in fn.params if prm.get("name") == "count"]
+        if not gens or not cnts:
+            continue
+        def is_gen_call(e):
+            if e.get("k") != "call" or e.get("opcall") != "()":
+                return False
+            o = strip_move(e.get("obj"))
+            return isinstance(o, dict) and o.get("k") == "var" and o.get("vid") == gens[0]
+        def uses_gen(e):
+            return is_gen_call(e) or (e.get("k") in ("call", "construct", "lambda") and any(isinstance(x, dict) and x.get("k") == "var" and x.get("vid") == gens[0] for x in subexprs(e)))
+        for h, body, tails in natural_loops(fn):
+            t = fn.term(h) or {}
+            c = comparison_of(t.get("cond"), True, lambda x: isinstance(strip_casts(x), dict) and strip_casts(x).get("k") == "var")
+            if not (c and c[0] == "<" and isinstance(strip_casts(c[1]), dict) and strip_casts(c[1]).get("vid") == cnts[0]):
+                continue
+            iv = strip_casts(c[2])
+            # induction variable starts at 0 and only ever advances by one: the loop visits every index
+            from lib.rules import local_defs
+            defs = local_defs(fn, iv.get("vid"))
+            full = any(d[2] == "decl" and const_val(d[1]) == 0 for d in defs) and all(d[2] in ("decl", "++") for d in defs)
+            calls_in = [(p, e) for p, e in fn.events() if p.b in body and is_gen_call(e)]
+            if not full or not calls_in:
+                continue
+            n += 1
+            later = None
+            for (b, i, sb) in loop_exit_edges(fn, body):
+                reach = fn.reachable_blocks(start=sb)
+                for p, e in fn.events():
+                    if p.b in reach and p.b not in body and uses_gen(e):
+                        later = e
+            R.ob("C01.bulk-once", fn, calls_in[0][1], later is None, "the loop over [0, count) is the last use of the generator on its path" if later is None else
+                 "after the loop that runs gen(i) for every i in [0, count) control reaches another use of the generator (%s): every task of the batch is run twice" % short(later),
+                 sitekey="full-range-loop", why=WHY)
+    R.need("C01.bulk-once", n, 1, "full-range generator loops in scheduleBulk*")
 
     # ---- batched ring push: the remainder goes to the central queue ------------------------------------
     n = 0
